@@ -169,8 +169,12 @@ def rule_casts(ck, facts, R, module_mark, label):
             else:
                 # the enclosing named function (closures are keyed under their root so that closure renumbering
                 # does not change keys)
-                root = fn.root.split("::", 1)[1]
-                key = "cast|%s|%s->%s|%s:%s" % (root, fr, to, org.kind, org.desc)
+                # keyed by the type whose code casts (methods) or the module (free functions), the cast and the kind
+                # of its source; function names, closure numbers and the names of locals do not enter the key
+                from .c03_unsafe import _owner
+
+                root = _owner(facts, fn)
+                key = "cast|%s|%s->%s|%s" % (root, fr, to, ("call:%s" % org.desc) if org.kind == "call" else org.kind)
                 groups.setdefault(key, []).append((fn, s))
     for key, lst in sorted(groups.items()):
         fn, s = lst[0]
